@@ -19,11 +19,11 @@ from io import BytesIO
 
 # ---------------------------------------------------------------------------------------------
 def fn_case(rng):
-    n = rng.choice([1, 2, 7, 8, 100, 1000, 4090, 9000])
+    n = rng.choice([1, 2, 7, 8, 100, 1000, 2050, 4090, 9000, 32754])
     d = rng.randbytes(n)
     if n % 2:
         d += b"\x00"
-    mx = rng.choice([0, 7, 8, 13, 64, 1000, 16382])
+    mx = rng.choice([0, 7, 8, 13, 64, 255, 1000, 1031, 16382, 16383])
     chunked = rng.random() < 0.5
     return d, mx, chunked
 
@@ -470,7 +470,19 @@ def run(ctx):
     ctx.assumptions.append("pydicom's encoder/decoder and zlib are trusted: decoded-dataset equality is observed, not proved")
     # (1) function level
     cases = [fn_case(ctx.rng) for _ in range(ctx.n(300, 6000))]
-    reals = [run_fn(ctx.rng, *c) for c in cases]
+    reals = []
+    for c in cases:
+        try:
+            reals.append(run_fn(ctx.rng, *c))
+        except Exception as exc:  # the real encode/decode/accessor chain raised on a plain C-STORE request
+            reals.append(None)
+            d, mx, chunked = c
+            case = ["deliver", "chunked" if chunked else "memory", len(d), mx, "raised"]
+            ctx.case(case + [d[:8]], kind=("chunked" if chunked else "memory") + f":max{mx}")
+            ctx.fail("fn-raised:" + type(exc).__name__, f"C-STORE request with {len(d)} data-set bytes at maximum PDU length {mx} "
+                     f"({'chunked' if chunked else 'in-memory'} receive): encode_msg -> decode_msg -> Event accessors raised {exc!r}", case)
+    kept = [(c, r) for c, r in zip(cases, reals) if r is not None]
+    cases, reals = [c for c, _ in kept], [r for _, r in kept]
     reqs = []
     for (d, mx, chunked), r in zip(cases, reals):
         meta_rest = b""
